@@ -6,6 +6,7 @@
 
 struct Gen {
     Rng &r;
+    int boost = 0;  // 1 in the thorough tier: larger inputs (more allocations, deeper compactions)
     explicit Gen(Rng &rng) : r(rng) {}
 
     // --- cells
@@ -23,7 +24,7 @@ struct Gen {
     Op c17Op();               // weighted over the C17 functions
     Op c17OpFor(int fn);
     Op c16Op(int maxCells);
-    Op anyOp(int scale);      // C18: any exported function; scale 0..2
+    Op anyOp(int scale, int forcedFn = -1);  // C18: any exported function; scale 0..2
 
     // --- pieces
     Op compactOp();
